@@ -1,15 +1,33 @@
-/* Proof units over Lib/core/ctx.c: push_evt (C13, C18 refill, C03 userdata), ... */
+/* Proof units over Lib/core/ctx.c: push_evt (C13, C18 refill, C03 userdata), recv_events (C03), ... */
+/* loop contract of the receive loop (anchor M_VERIF_LOOP(ctx_recv)): after i iterations i sources have been consumed and handed
+ * over, and no error is pending -- in particular errno left behind by user code in push_evt() is not mistaken for one */
+#ifdef V_RECV_LOOPCONTRACT
+#define M_VERIF_LOOPSPEC_ctx_recv \
+    __CPROVER_assigns(i, err, recved, g_errno, g.recv_calls, g.newevt_calls, g.process_calls, g.pushevt_calls, g.unref_calls, g.unref_arg, g.unref_arg_prev, g.fetch_calls, \
+                      g_mod->state, g_ctx->stats.running_modules, g_ctx->quit, g_ctx->quit_code) \
+    __CPROVER_loop_invariant(0 <= i && i <= nfds && nfds == g_nfds && 0 <= recved && recved <= i) \
+    __CPROVER_loop_invariant(g_mod->state != M_MOD_RUNNING || (err == 0 && recved == i && g.pushevt_calls == g_pe0 + (size_t)i && g.process_calls == g_pr0 + (size_t)i) || g_pw_errno != 0) \
+    __CPROVER_loop_invariant(g_pw_errno == 0 ? err == 0 : err == g_pw_errno) \
+    __CPROVER_loop_invariant(!g_ctx->quit && err >= 0 && err < 200) \
+    __CPROVER_loop_invariant(g_mod->state == M_MOD_IDLE || g_mod->state == M_MOD_RUNNING || g_mod->state == M_MOD_PAUSED || g_mod->state == M_MOD_STOPPED || g_mod->state == M_MOD_ZOMBIE) \
+    __CPROVER_decreases(nfds - i)
+#endif
 #include "vmodel.h"
 #include "core/ctx.c"            /* the real translation unit, unmodified */
 static ev_src_t *g_src; static evt_priv_t *g_evt;
 #include "abs.contracts.h"
+#ifdef V_RECV_UNIT
+#include "recv.contracts.h"
+#else
 #include "ctx.contracts.h"
+#endif
 
-#define H_INPUTS(X) V_MOD_INPUTS(X) X(uint8_t, has_src) X(uint32_t, sflags) X(uint8_t, up_kind) X(uint64_t, up_other)
+#define H_INPUTS(X) V_MOD_INPUTS(X) X(uint8_t, has_src) X(uint32_t, sflags) X(uint8_t, up_kind) X(uint64_t, up_other) X(int32_t, nfds) X(int32_t, pw_errno)
 V_DEFINE_INPUTS(H_INPUTS)
 
 #include "vbuild.h"
 
+#ifndef V_RECV_UNIT
 void h_push_evt(void) {
     build();
     g_evt = malloc(sizeof *g_evt); __CPROVER_assume(g_evt != NULL);
@@ -31,3 +49,24 @@ void h_push_evt(void) {
     V_COVER("nosrc", !g_src && g.cb_calls == 1);
     V_CANARY();
 }
+#endif
+
+#ifdef V_RECV_UNIT
+char *v_strerror(int e) { static char s[2]; (void)e; return s; }
+ev_src_t *v_process(ev_src_t *this, m_ctx_t *c, int idx, evt_priv_t *evt);
+void h_recv_events(void) {
+    build();
+    V_ASSUME(vin_nfds >= 0 && vin_nfds <= V_NFDS_MAX && vin_pw_errno >= 0 && vin_pw_errno < 200 && vin_state == M_MOD_RUNNING && !(vin_quit & 1) && vin_recv_msgs < ((uint64_t)1 << 60));
+    g_nfds = vin_pw_errno ? -1 : vin_nfds; g_pw_errno = vin_pw_errno;
+    if (vin_pw_errno) g_nfds = -1;
+    g_ctx->stats.recv_msgs = vin_recv_msgs;
+    g_psrc = malloc(sizeof *g_psrc); __CPROVER_assume(g_psrc != NULL);
+    g_psrc->mod = g_mod; g_psrc->process = v_process; g_psrc->flags = M_SRC_PRIO_HIGH; g_psrc->type = M_SRC_TYPE_FD;
+    process_cb keep = v_process; (void)keep;
+    g_pe0 = g.pushevt_calls; g_pr0 = g.process_calls;
+    int r = recv_events(g_ctx, -1);
+    V_COVER("batch-of-three", r == 3); V_COVER("batch-empty", r == 0 && vin_pw_errno == 0); V_COVER("poll-eintr", vin_pw_errno == EINTR); V_COVER("poll-failure", r == -1);
+    V_COVER("module-stopped-midway", vin_nfds == 3 && g_mod->state != M_MOD_RUNNING);
+    V_CANARY();
+}
+#endif
